@@ -67,9 +67,16 @@ GHOST static void yield_final(void) {
   long bypass[MAX_FIBERS];
   long max_bypass = 0, n_noswitch = 0;
   int max_ready = 0;
-  for (int i = 0; i < MAX_FIBERS; i++) ready_on[i] = -1, bypass[i] = 0;
+  int yielding[MAX_FIBERS];
+  for (int i = 0; i < MAX_FIBERS; i++) ready_on[i] = -1, bypass[i] = 0, yielding[i] = -1;
   for (int k = 0; k < n; k++) {
     const gev_t* e = &ev[k];
+    if (e->type == 3) {
+      // the fiber enters fiber_yield: if another fiber is switched in on this thread next, it has really been switched away and
+      // counts as ready from then on, whether or not the library passed it to the scheduler
+      if (e->who >= 0) yielding[e->who] = e->thread;
+      continue;
+    }
     if (e->type == 1) {
       if (e->who >= 0) {
         ready_on[e->who] = e->thread;
@@ -79,6 +86,7 @@ GHOST static void yield_final(void) {
         if (r > max_ready) max_ready = r;
       }
     } else if (e->type == 2) {
+      if (e->who >= 0) yielding[e->who] = -1;
       // a yield that came back without switching: every fiber that was ready on that thread has been passed over once
       for (int i = 0; i < nf; i++)
         if (i != e->who && ready_on[i] == e->thread) {
@@ -89,6 +97,15 @@ GHOST static void yield_final(void) {
                          "fiber_yield returned without a switch", i, e->thread, bypass[i], bound, nf, e->who);
         }
     } else {
+      for (int i = 0; i < nf; i++)
+        if (yielding[i] == e->thread && i != e->who) {
+          if (ready_on[i] < 0) {
+            ready_on[i] = e->thread;
+            bypass[i] = 0;
+          }
+          yielding[i] = -1;
+        }
+      if (e->who >= 0) yielding[e->who] = -1;
       if (e->who == -2) continue;  // maintenance fiber: nothing was ready on that thread
       if (e->who >= 0) {
         if (bypass[e->who] > max_bypass) max_bypass = bypass[e->who];
